@@ -166,7 +166,7 @@ NOTES = {
     'C05-s8': ("argument errors keep their traceback: a constant error cell grows by 4 KB per evaluation", "caught"),
     'C05-s9': ("one AST per formula text plus the resolved address cached on the node", "caught (patch rebased onto fix 5a0926c)"),
     'C05-s10': ("one shared cycle-check path per evaluator, not cut back when an evaluation fails", "caught"),
-    'C06-s8': ("constant-time cycle check: the cells of a range get the set without their owner", "caught"),
+    # C06-s8 (cycle check that loses the owner of a range: cycles made only of ranges recursed to the limit) was kept until fix 324c2fc: the long-cycle search now reports those cycles too, the change no longer breaks the property
     'C07-s8': ("blank shortcut of the ordering comparisons hoisted above the error check", "caught"),
     'C07-s9': ("POWER computed with ** : complex results raise in the result conversion", "caught"),
     'C07-s10': ("EXACT registered before it is wrapped by validate_args", "caught"),
